@@ -117,6 +117,8 @@ func (s *Server) goLive(
 	var sw *scanWriter
 	var wr bytes.Buffer
 	lfs := inerr.(liveFenceSwitches)
+	// the fence's WHEREEVAL interpreters are this connection's until it ends
+	defer lfs.Close()
 	lb.globs = lfs.globs
 	lb.key = lfs.key
 	lb.fence = &lfs
